@@ -143,6 +143,52 @@ PROPS = {
             "memory residency ('never holds more than S body bytes in memory')",
         ],
     },
+    "C05": {
+        "title": "Connection protocol-state contract",
+        "design_ref": "DESIGN.md section 3 (C05)",
+        "technique": "Verus contracts on every HttpConn method (real text, async removed) against an explicit protocol-state specification over "
+                     "(read_state, write_state, bytes on the wire); sequence clauses as lemmas over those contracts; complete Kani harness for the byte counter",
+        "level_text": "Deductive proof for every pre-state, hence by induction for every call sequence: each guard returns exactly the documented "
+                      "error and changes neither the states nor the wire; read_request owes a response before reading and derives read_state "
+                      "from the body kind; 100-continue is sent only while a response is owed and automatically before a body announced with "
+                      "Expect; interim responses keep the response owed; a final response moves to None and cannot be sent twice; 5xx and "
+                      "partially failed writes shut the write side down; nothing is written after shutdown.",
+        "level_note": "Assumed at this level: write_http_response (writes ser(resp, close) or a prefix, counter in step), read_http_request "
+                      "(never writes), TcpStream / Chain / FixedBuf stand-ins, the poll-based AsyncWrite impl of AsyncWriteCounter (its "
+                      "poll_write is discharged by a complete Kani harness). The body readers are the real functions, re-verified in this unit. "
+                      "Not covered: that the peer observes the bytes (kernel), cancellation, that a body read consumes exactly len bytes of "
+                      "*this* connection (proved over the reader handed to the body functions, C09).",
+        "verus": ["conn"],
+        "verus_thorough": [],
+        "kani": ["c05"],
+        "witness": None,
+        "assumptions": [
+            "assumed contract: write_http_response(writer, resp, close) appends ser(resp, close) on Ok, a prefix of it on Err, and keeps a counting wrapper's counter in step (w_kept)",
+            "assumed contract: read_http_request never writes to the stream it reads from (kept(reader))",
+            "assumed contracts: async_net::TcpStream as reader and writer; TcpStream::shutdown(&self) writes nothing; futures-lite Chain; FixedBuf",
+            "assumed at Verus level: AsyncWriteCounter's AsyncWrite impl forwards to the inner writer and counts accepted bytes (poll_write discharged by Kani harness c05_counter_poll_write)",
+            "#[derive(Structural)] is added to ReadState / WriteState / ResponseKind so that the derived == is read as structural equality",
+        ],
+        "not_covered": ["kernel / peer-side observation of the bytes", "task cancellation at await points", "handle_http_conn / handle_http_conn_once (generic async handler closures)"],
+    },
+    "C08": {
+        "title": "A failed response write never corrupts the connection",
+        "design_ref": "DESIGN.md section 4 (C06/C08)",
+        "technique": "Verus: write_response contract + lemmas thm_failed_write_is_final / thm_failed_write_nothing_sent over it (conn unit); "
+                     "writer-error clauses of copy_async / copy_chunked_async (prefix of the correct output)",
+        "level_text": "Deductive proof for every failure point the writer contract allows (failure after any number of bytes): the bytes on the wire "
+                      "are a prefix of wire + ser(resp, close); if at least one byte was sent the write side is shut down and no later operation "
+                      "adds a byte (no second status line); if none was sent the response is still owed and the wire is unchanged; body copy "
+                      "loops leave a prefix of the correct body encoding on writer failure.",
+        "level_note": "'the one correct serialisation' is the uninterpreted ser(resp, close) of the assumed write_http_response contract (its head is "
+                      "built with format!, outside Verus); body-file faults (missing / short file) are not covered; handle_http_conn's error branch is not under contract.",
+        "verus": ["conn", "copy", "chunked"],
+        "verus_thorough": [],
+        "kani": ["c05"],
+        "witness": None,
+        "assumptions": ["as C05", "assumed write_all contract: on Err a prefix of the slice was appended"],
+        "not_covered": ["body source faults (file missing / unreadable / shorter than declared)", "handle_http_conn's `write_response(&e.into())` + shutdown_write branch"],
+    },
 }
 
 NOT_APPLICABLE = {}
